@@ -17,6 +17,10 @@ ENGINES = [
      "kind_free_text": "TLA+ model of slot allocation; address tables of real Systems validated by TLC"},
     {"name": "build", "path": "spec/Build.tla spec/Trace_Build.tla spec/Scen_Build.tla vh/builddrv.py", "serves_properties": ["C19"],
      "kind_free_text": "TLA+ model of device registration; add sequences enumerated by TLC, executed on real Systems, validated by TLC"},
+    {"name": "perunit", "path": "spec/PerUnitK.tla spec/PerUnit.tla spec/Scen_PerUnit.tla spec/Trace_PerUnit.tla vh/pudrv.py", "serves_properties": ["C11"],
+     "kind_free_text": "exact-rational per-unit factors in TLA+; alter/set/reset state machine; sequences replayed on real Systems"},
+    {"name": "config", "path": "spec/Config.tla spec/Scen_Config.tla spec/Trace_Config.tla vh/confdrv.py", "serves_properties": ["C20"],
+     "kind_free_text": "TLA+ model of configuration channel precedence; channel combinations replayed on real Systems"},
     {"name": "connectivity", "path": "spec/Connectivity.tla spec/Trace_Connectivity.tla spec/Scen_Connectivity.tla vh/conndrv.py vh/netbuild.py",
      "serves_properties": ["C12"], "kind_free_text": "graph definitions in TLA+ evaluated by TLC on logged graphs of real Systems; ConnMan model-checked"},
     {"name": "lifecycle", "path": "spec/Lifecycle.tla spec/Trace_Lifecycle.tla spec/Scen_Lifecycle.tla vh/lifecycle.py vh/infeasible.py",
@@ -98,6 +102,17 @@ CHECKS = {
                        "a later successful re-run of the same routine may reset the exit code (only a failed set-up must persist)."),
 }
 
+CHECKS["C11"] = dict(
+    engine="perunit", design_ref="DESIGN.md 4 (C11), 2.4",
+    technique="TLC: exact-rational conversion factors (PerUnitK) evaluated for the bases observed in stock cases + model checking of "
+              "the vin/v/Tf state machine + TLC-enumerated alter/set/reset sequences on real Systems with TLC trace validation",
+    text="The textbook factors are defined over exact rationals in TLA+ (identities checked as ASSUMEs); for every flagged parameter "
+         "of every device in the observed stock cases TLC computes the exact factor for the device's bases and the library's "
+         "pu_coeff and v = vin*k are compared; alter(v|vin)/set/group-alter/reset sequences at three lifecycle points are run on real "
+         "Systems and TLC validates both bases, dae.Tf/Teye propagation, untouched neighbours, reset and what json/xlsx export writes.",
+    note=TRUSTED.replace("vh/tdsdrv.py: ranks of floats, booleans computed on floats", "vh/pudrv.py: bases read from the data, closeness predicates at 1e-12 relative")
+         + "DC quantities (dc_voltage, dc_current, r, g) are not covered. Bases that are not small rationals are skipped and counted.")
+
 CHECKS["C19"] = dict(
     engine="build", design_ref="DESIGN.md 4 (C19)",
     technique="TLC model checking of Build (registry / automatic idx) + TLC-enumerated add sequences executed on real Systems + "
@@ -109,6 +124,19 @@ CHECKS["C19"] = dict(
          "dangling reference fails set-up.",
     note=TRUSTED.replace("vh/tdsdrv.py: ranks of floats, booleans computed on floats", "vh/builddrv.py: typed-string idx values, device tables")
          + "Groups exercised: StaticGen (PV/Slack), SynGen referrers, FreqMeasurement helpers; other groups share the same GroupBase code.")
+
+CHECKS["C20"] = dict(
+    engine="config", design_ref="DESIGN.md 4 (C20)",
+    technique="TLC model checking of Config (constructor channel order) + TLC-enumerated channel combinations applied to every "
+              "configurable field of real Systems + TLC trace validation",
+    text="The order in which the constructors apply rc file, options, dictionary and defaults is model-checked for "
+         "'effective = dictionary > option > file > default' and rejection of values outside the alternatives; the field list is "
+         "read from the running code (~400 fields of System, routines, models) and every channel combination is applied to a real "
+         "System, with per-field singles, out-of-alternative values, malformed option strings, several options per section, and "
+         "save_config/load round trips (also after run-time edits); TLC validates every record.",
+    note=TRUSTED.replace("vh/tdsdrv.py: ranks of floats, booleans computed on floats", "vh/confdrv.py: typed-string values read back from the config objects")
+         + "Fields with host side effects (numba, dime, seed, numpy error state, plotting/report switches) are excluded; free-form "
+           "string fields keep their default.")
 
 NOT_APPLICABLE = [
     {"property_id": "C07", "reason": "numeric accuracy / convergence order against closed-form and matrix-exponential references: no "
